@@ -18,6 +18,7 @@ class Gap(References, Line):
     "var" : "optional_integer"
   }
   REFERENCE_FIELDS = ["sid1", "sid2"]
+  DEPENDENT_LINES = ["paths"]
   OTHER_REFERENCES = ["sets"]
 
 Gap._apply_definitions()
